@@ -35,7 +35,8 @@
 (*   bins, skiplow, skipout, minw (weight units; 0 = "drop zero weight"), procs                 *)
 (*   gap, mab   by_arm's min_gap_size / min_arm_bins in effect (100000 / 50 in do_segmentation) *)
 (*   surv    which bins reached the segmentation kernel (recorded at the kernel's entry)        *)
-(*   sd9     robust autosomal spread the HMM was built with, * 10^9 (0 = none / zero / NaN)     *)
+(*   sd9     robust autosomal spread the HMM was built with, * 10^9 (0 = none / zero / NaN);    *)
+(*           sdseen = the estimate was reached;  cls = class of each chromosome by name         *)
 (*   forced, kern   the harness replaced the numeric kernel by one returning the cuts `kern`    *)
 (*              (a sequence of cut positions)                                                   *)
 (*   out, err   observed segments / exception;   arms (op = "byarm"): observed arms             *)
@@ -237,11 +238,16 @@ Holds(c, r) ==
 (* bin tables as a .cnr file holds them: chromosomes in blocks, bins sorted and disjoint, values on the   *)
 (* grids; by_arm needs min_arm_bins >= 1; the HMM methods need a non-degenerate robust autosomal spread  *)
 (* (pomegranate raises ZeroDivisionError for sigma = 0; no autosomal bin at all gives no model either).  *)
+(* r.cls[c] = "auto" | "x" | "y": the class of chromosome c by its name; r.sdseen = the spread estimate was reached *)
+HmmFeasible(r) ==
+    \/ SurvSet(r) = {}                                             \* nothing to segment: no model is built
+    \/ /\ \E n \in SurvSet(r) : r.cls[BC(r.bins[n])] = "auto"      \* the model is built from the autosomal bins
+       /\ r.sdseen => r.sd9 > 0                                    \* ... and needs a non-zero spread
 Premise(r) ==
     /\ Contiguous(r.bins) /\ BinsSorted(r.bins) /\ OnGrid(r.bins)
     /\ r.mab >= 1 /\ r.gap >= 0
     /\ r.op \in Methods => /\ Len(r.surv) = Len(r.bins) /\ r.minw >= 0 /\ r.procs >= 1
-                           /\ r.op \in HMM => (r.forced \/ r.sd9 > 0)
+                           /\ (r.op \in HMM /\ ~r.forced) => HmmFeasible(r)
 
 (* ================================================================= A-layer =============== *)
 (* ---- bin filters of _do_segmentation, in the code's order ---- *)
